@@ -219,6 +219,10 @@ Factor(u1, u2) == CASE u1 = u2 -> 1 [] u1 = "km" /\ u2 = "m" -> 1000 [] u1 = "km
 StripOps == {"d", "ndview", "ndarray_view", "asarray"}
 CopyStripOps == {"v", "value", "to_ndarray"}
 ConvertOps == {"in_units", "to"}
+\* call forms of copy(): op.s = the order argument ("" = not given), op.a = 1 when it is passed positionally;
+\* the copy protocols next to the method: copy.copy(x), copy.deepcopy(x), np.copy(x, subok=True)
+CopyOrders == {"", "C", "F", "A", "K"}
+CopyProtoOps == {"py_copy", "py_deepcopy", "np_copy"}
 BaseOps == {"in_base", "in_mks", "in_cgs"}
 BaseTarget(op) == IF op = "in_cgs" THEN "cm" ELSE "m"
 TransOps == {"T", "transpose", "np_transpose", "swapaxes"}
@@ -246,7 +250,8 @@ Enabled(o, m, op) ==
     [] op.op \in {"ravel", "flatten", "squeeze", "np_squeeze", "atleast_1d", "view", "broadcast_to", "repeat2"} -> IsUnyt(o)
     [] op.op = "squeeze_ax" -> IsUnyt(o) /\ op.a <= Len(o.sh) /\ op.a >= 1 /\ o.sh[op.a] = 1
     [] op.op = "expand_dims" -> IsUnyt(o) /\ op.a >= 1 /\ op.a <= Len(o.sh) + 1
-    [] op.op \in StripOps \cup CopyStripOps \cup {"to_value", "copy", "ctor_a_from"} -> IsUnyt(o)
+    [] op.op = "copy" -> IsUnyt(o) /\ op.s \in CopyOrders /\ op.a \in {0, 1} /\ (op.a = 1 => op.s # "")
+    [] op.op \in StripOps \cup CopyStripOps \cup CopyProtoOps \cup {"to_value", "ctor_a_from"} -> IsUnyt(o)
     [] op.op \in ConvertOps \cup {"to_value_u"} -> IsUnyt(o) /\ o.u \in Units /\ op.s \in Units /\ Factor(o.u, op.s) # 0
     [] op.op \in BaseOps -> IsUnyt(o) /\ o.u \in Units /\ Factor(o.u, BaseTarget(op.op)) # 0
     [] op.op = "red" -> IsUnyt(o) /\ op.s \in RedFns /\ op.a <= Len(o.sh)
@@ -327,7 +332,11 @@ Res(o, m, op) ==
          IF QRefuses(o.k, o.sh) THEN RExc
          ELSE IF o.k = "Q" THEN (IF o.sh = <<>> THEN R("num", <<>>, "", FALSE, "copy", Same(o), Factor(o.u, op.s)) ELSE RExc)
          ELSE R("nd", o.sh, "", FALSE, "copy", Same(o), Factor(o.u, op.s))
-    [] op.op = "copy" -> IF QRefuses(o.k, o.sh) THEN RExc ELSE R(NativeK(o), o.sh, o.u, o.nm, "copy", Same(o), 1)
+    \* copy(order): type(self)(np.copy(np.asarray(self)), units, name) - the order argument is not looked at (the copy
+    \* keeps the layout of the data), fresh data in every call form; __deepcopy__ re-wraps ndarray's deep copy the same way
+    [] op.op \in {"copy", "py_deepcopy"} -> IF QRefuses(o.k, o.sh) THEN RExc ELSE R(NativeK(o), o.sh, o.u, o.nm, "copy", Same(o), 1)
+    \* copy.copy / np.copy(subok=True): ndarray-native (class, unit and name through __array_finalize__)
+    [] op.op \in {"py_copy", "np_copy"} -> R(NativeK(o), o.sh, o.u, o.nm, "copy", Same(o), 1)
     [] op.op = "ctor_a_from" -> R("A", o.sh, o.u, FALSE, "view", Same(o), 1)
     [] op.op \in ConvertOps -> IF QRefuses(o.k, o.sh) THEN RExc ELSE R(NativeK(o), o.sh, op.s, o.nm, "copy", Same(o), Factor(o.u, op.s))
     [] op.op \in BaseOps ->       \* outside the electromagnetic branch: self.in_units(base equivalent) - class and name as in_units
@@ -392,376 +401,4 @@ C16_Mixed(src, srcvals, op, r, rvals) ==
   /\ \A j \in DOMAIN srcvals :
        LET row == IF Len(src.sh) = 1 THEN j - 1 ELSE (j - 1) \div src.sh[2] IN
        rvals[j] = ConvRat(srcvals[j], MixUnit(op, row), MixTarget(op))
-======================= Part 1: shapes and element maps =================== *)
-RECURSIVE Prod(_)
-Prod(s) == IF s = <<>> THEN 1 ELSE Head(s) * Prod(Tail(s))
-Size(sh) == Prod(sh)
-CStride(sh, k) == Prod(SubSeq(sh, k + 1, Len(sh)))
-Iota(n) == [i \in 1..n |-> i - 1]
-RECURSIVE SumF(_, _)
-SumF(f, n) == IF n = 0 THEN 0 ELSE f[n] + SumF(f, n - 1)
-Range(s) == {s[i] : i \in DOMAIN s}
-Injective(s) == \A i, j \in DOMAIN s : s[i] = s[j] => i = j
-Consecutive(s) == \A i \in 1..(Len(s) - 1) : s[i + 1] = s[i] + 1
-\* elements in C order form an arithmetic progression (all axes can be merged: any reshape is a view)
-AP(s) == Len(s) <= 2 \/ \A i \in 2..(Len(s) - 1) : s[i + 1] - s[i] = s[2] - s[1]
-RECURSIVE Concat(_)
-Concat(ss) == IF ss = <<>> THEN <<>> ELSE Head(ss) \o Concat(Tail(ss))
-
-\* named slices (harness/impl_c16.py maps the names to Python slices)
-SliceIdx(nm, n) ==
-  CASE nm = "all" -> Iota(n)
-    [] nm = "from1" -> SelectSeq(Iota(n), LAMBDA i : i >= 1)
-    [] nm = "to1" -> SelectSeq(Iota(n), LAMBDA i : i < 1)
-    [] nm = "step2" -> SelectSeq(Iota(n), LAMBDA i : i % 2 = 0)
-    [] nm = "rev" -> [j \in 1..n |-> n - j]
-    [] nm = "empty" -> <<>>
-    [] nm = "last" -> SelectSeq(Iota(n), LAMBDA i : i = n - 1)
-    [] nm = "mid" -> SelectSeq(Iota(n), LAMBDA i : i = 1)
-\* named integer-array indices: [0], [0,0], [-1,0], [], [-1], [[0],[-1]]
-FancyIx(nm, n) ==
-  CASE nm = "f0" -> <<0>> [] nm = "f00" -> <<0, 0>> [] nm = "fl0" -> <<n - 1, 0>>
-    [] nm = "fe" -> <<>> [] nm = "fneg" -> <<n - 1>> [] nm = "f2d" -> <<0, n - 1>>
-FancyDims(nm) ==
-  CASE nm = "f0" -> <<1>> [] nm = "f00" -> <<2>> [] nm = "fl0" -> <<2>>
-    [] nm = "fe" -> <<0>> [] nm = "fneg" -> <<1>> [] nm = "f2d" -> <<2, 1>>
-\* named boolean masks over n positions
-MaskIx(nm, n) ==
-  CASE nm = "mnone" -> <<>> [] nm = "mall" -> Iota(n)
-    [] nm = "mfirst" -> SelectSeq(Iota(n), LAMBDA i : i < 1)
-    [] nm = "malt" -> SelectSeq(Iota(n), LAMBDA i : i % 2 = 0)
-
-\* index items: [t, i, s];  t in int | sl | fancy | mask1 | ell | new | maskfull | bool
-It(t, i, s) == [t |-> t, i |-> i, s |-> s]
-Consumes(it) == it.t \in {"int", "sl", "fancy", "mask1"}
-NCons(items) == Cardinality({j \in DOMAIN items : Consumes(items[j])})
-HasEll(items) == \E j \in DOMAIN items : items[j].t = "ell"
-Advanced(items) == \E j \in DOMAIN items : items[j].t \in {"fancy", "mask1", "maskfull", "bool"}
-Fill(n) == [j \in 1..n |-> It("sl", 0, "all")]
-Expand(items, r) ==
-  IF HasEll(items)
-  THEN LET e == CHOOSE j \in DOMAIN items : items[j].t = "ell" IN
-       SubSeq(items, 1, e - 1) \o Fill(r - NCons(items)) \o SubSeq(items, e + 1, Len(items))
-  ELSE items \o Fill(r - NCons(items))
-\* result axes of an expanded index: [ax = source axis or 0, ix = selected source indices, dims = extents contributed]
-RECURSIVE BuildR(_, _, _)
-BuildR(X, sh, a) ==
-  IF X = <<>> THEN <<>> ELSE
-  LET it == Head(X)
-      a2 == IF Consumes(it) THEN a + 1 ELSE a
-      n == IF Consumes(it) THEN sh[a2] ELSE 0
-      me == CASE it.t = "int" -> <<>>
-              [] it.t = "sl" -> <<[ax |-> a2, ix |-> SliceIdx(it.s, n), dims |-> <<Len(SliceIdx(it.s, n))>>]>>
-              [] it.t = "fancy" -> <<[ax |-> a2, ix |-> FancyIx(it.s, n), dims |-> FancyDims(it.s)]>>
-              [] it.t = "mask1" -> <<[ax |-> a2, ix |-> MaskIx(it.s, n), dims |-> <<Len(MaskIx(it.s, n))>>]>>
-              [] it.t = "new" -> <<[ax |-> 0, ix |-> <<0>>, dims |-> <<1>>]>>
-              [] it.t = "bool" -> <<[ax |-> 0, ix |-> IF it.i = 1 THEN <<0>> ELSE <<>>, dims |-> <<IF it.i = 1 THEN 1 ELSE 0>>]>>
-  IN me \o BuildR(Tail(X), sh, a2)
-RECURSIVE BuildF(_, _, _)
-BuildF(X, sh, a) ==
-  IF X = <<>> THEN <<>> ELSE
-  LET it == Head(X)
-      a2 == IF Consumes(it) THEN a + 1 ELSE a
-  IN (IF it.t = "int" THEN << <<a2, IF it.i < 0 THEN it.i + sh[a2] ELSE it.i>> >> ELSE <<>>) \o BuildF(Tail(X), sh, a2)
-\* logical (C-order) position in the source of every element of the result
-GatherL(sh, rax, fxs) ==
-  LET msh == [j \in DOMAIN rax |-> Len(rax[j].ix)]
-      n == Prod(msh)
-      r == Len(sh)
-      \* per source axis: the fixed index (or -1) and the result axis that sweeps it (or 0); strides of both shapes
-      fixv == [k \in 1..r |-> IF \E m \in DOMAIN fxs : fxs[m][1] = k THEN fxs[CHOOSE m \in DOMAIN fxs : fxs[m][1] = k][2] ELSE 0 - 1]
-      raxof == [k \in 1..r |-> IF fixv[k] >= 0 THEN 0 ELSE CHOOSE j \in DOMAIN rax : rax[j].ax = k]
-      mstr == [j \in DOMAIN rax |-> CStride(msh, j)]
-      sstr == [k \in 1..r |-> CStride(sh, k)]
-      Term(p, k) == (IF fixv[k] >= 0 THEN fixv[k]
-                     ELSE rax[raxof[k]].ix[((p \div mstr[raxof[k]]) % msh[raxof[k]]) + 1]) * sstr[k]
-  IN [p \in 1..n |-> SumF([k \in 1..r |-> Term(p - 1, k)], r)]
-IdxShape(sh, items) ==
-  IF Len(items) = 1 /\ items[1].t = "maskfull" THEN <<Len(MaskIx(items[1].s, Size(sh)))>>
-  ELSE LET rax == BuildR(Expand(items, Len(sh)), sh, 0) IN Concat([j \in DOMAIN rax |-> rax[j].dims])
-IdxLPos(sh, items) ==
-  IF Len(items) = 1 /\ items[1].t = "maskfull" THEN MaskIx(items[1].s, Size(sh))
-  ELSE LET X == Expand(items, Len(sh)) IN GatherL(sh, BuildR(X, sh, 0), BuildF(X, sh, 0))
-\* NumPy hands back a scalar (not a 0-d view): every axis indexed by an integer, no ellipsis
-ScalarCase(sh, items) == Len(items) = Len(sh) /\ \A j \in DOMAIN items : items[j].t = "int"
-IdxValid(sh, items) ==
-  /\ NCons(items) <= Len(sh)
-  /\ Cardinality({j \in DOMAIN items : items[j].t = "ell"}) <= 1
-  /\ Cardinality({j \in DOMAIN items : items[j].t \in {"fancy", "mask1", "maskfull", "bool"}}) <= 1
-  /\ (Advanced(items) => \A j \in DOMAIN items : items[j].t # "int")
-  /\ (\E j \in DOMAIN items : items[j].t \in {"maskfull", "bool"}) => Len(items) = 1
-  /\ LET X == Expand(items, Len(sh)) IN
-     \A j \in DOMAIN X : Consumes(X[j]) =>
-        LET n == sh[Cardinality({m \in 1..j : Consumes(X[m])})] IN
-        /\ (X[j].t = "int" => (X[j].i < n /\ X[j].i >= -n))
-        /\ (X[j].t = "fancy" => (n >= 1 \/ X[j].s = "fe"))
-        /\ (X[j].t = "mask1" => X[j].i = n)
-
-\* transposition: result axis j is source axis perm[j]
-PermShape(sh, perm) == [j \in DOMAIN perm |-> sh[perm[j]]]
-PermLPos(sh, perm) == GatherL(sh, [j \in DOMAIN perm |-> [ax |-> perm[j], ix |-> Iota(sh[perm[j]]), dims |-> <<sh[perm[j]]>>]], <<>>)
-Reverse(n) == [j \in 1..n |-> n + 1 - j]
-Swap(n, a, b) == [j \in 1..n |-> IF j = a THEN b ELSE IF j = b THEN a ELSE j]
-\* broadcast to (2,) + sh
-BcastLPos(sh) == GatherL(sh, <<[ax |-> 0, ix |-> <<0, 0>>, dims |-> <<2>>]>> \o [k \in DOMAIN sh |-> [ax |-> k, ix |-> Iota(sh[k]), dims |-> <<sh[k]>>]], <<>>)
-SqueezeShape(sh) == SelectSeq(sh, LAMBDA e : e # 1)
-DropAxis(sh, k) == SubSeq(sh, 1, k - 1) \o SubSeq(sh, k + 1, Len(sh))
-InsertAxis(sh, k) == SubSeq(sh, 1, k - 1) \o <<1>> \o SubSeq(sh, k, Len(sh))
-\* reductions: ax = 0 means axis=None, otherwise the 1-based axis
-RedShape(sh, ax, kd) ==
-  IF ax = 0 THEN (IF kd THEN [j \in DOMAIN sh |-> 1] ELSE <<>>)
-  ELSE IF kd THEN [sh EXCEPT ![ax] = 1] ELSE DropAxis(sh, ax)
-\* number of elements each result element is reduced over
-RedCount(sh, ax) == IF ax = 0 THEN Size(sh) ELSE sh[ax]
-\* broadcasting of the binary partner kinds
-PartnerShape(sh, pk) ==
-  CASE pk \in {"self", "q", "num", "rnum", "nd", "rnd", "rq"} -> sh
-    [] pk = "a1" -> IF sh = <<>> THEN <<1>> ELSE sh
-    [] pk = "nd2" -> <<2>> \o sh
-
-(* ---- memory layout of a source ndarray: buffer offset of every element in C order ---- *)
-\* C  contiguous;  F  Fortran order;  col  base[..., 1] of a base with a trailing axis of 2 (stride 2, offset 1);
-\* rev  base[::-1] (first axis reversed)
-FStride(sh, k) == Prod(SubSeq(sh, 1, k - 1))
-LayOffs(sh, lay) ==
-  LET n == Size(sh) IN
-  CASE lay = "C" -> Iota(n)
-    [] lay = "F" -> [p \in 1..n |-> SumF([k \in DOMAIN sh |-> (((p - 1) \div CStride(sh, k)) % sh[k]) * FStride(sh, k)], Len(sh))]
-    [] lay = "col" -> [p \in 1..n |-> 2 * (p - 1) + 1]
-    [] lay = "rev" -> IF sh = <<>> THEN Iota(n)
-                      ELSE [p \in 1..n |-> (p - 1) + (sh[1] - 1 - 2 * ((p - 1) \div CStride(sh, 1))) * CStride(sh, 1)]
-\* the layout is a different case from C only when the elements are not consecutive in memory
-LayDistinct(sh, lay) == lay = "C" \/ (Size(sh) >= 2 /\ ~Consecutive(LayOffs(sh, lay)))
-
-(* ---- affine unit table: 180 * (value in K) = UA*x + UB for temperatures, (value in cm) = UA*x for lengths ---- *)
-UA(u) == CASE u = "km" -> 100000 [] u = "m" -> 100 [] u = "cm" -> 1
-           [] u = "K" -> 180 [] u = "degC" -> 180 [] u = "degF" -> 100 [] u = "R" -> 100
-UB(u) == CASE u = "degC" -> 49167 [] u = "degF" -> 45967 [] OTHER -> 0
-LenFam == <<"km", "m", "cm">>
-TempFam == <<"K", "degC", "degF", "R">>
-Fam(u) == IF u \in {"km", "m", "cm"} THEN LenFam ELSE TempFam
-Abs(x) == IF x < 0 THEN 0 - x ELSE x
-RECURSIVE GCD(_, _)
-GCD(a, b) == IF b = 0 THEN a ELSE GCD(b, a % b)
-\* x in unit u, expressed in unit v, as a reduced rational <<num, den>> (den > 0): the exact affine conversion
-ConvRat(x, u, v) ==
-  LET num == UA(u) * x + UB(u) - UB(v)
-      den == UA(v)
-      g == GCD(Abs(num), den) IN
-  IF num = 0 THEN <<0, 1>> ELSE <<num \div g, den \div g>>
-
-(* ======================= objects, memory ================================== *)
-Obj(k, sh, u, nm) == [k |-> k, sh |-> sh, u |-> u, nm |-> nm]
-ExcObj == Obj("exc", <<>>, "", FALSE)
-IsUnyt(o) == o.k \in {"Q", "A"}
-IsArr(o) == o.k \in {"Q", "A", "nd"}
-Mem(buf, fam, offs) == [buf |-> buf, fam |-> fam, offs |-> offs]
-\* memory of a result: cls in view | copy | silent; lpos = logical source position of every result element
-\* (when lpos does not describe the result - n # Len(lpos) - the relation is unknown: fresh buffer, same family)
-NewMem(m, cls, lpos, n, nb) ==
-  IF cls = "view" /\ Len(lpos) = n THEN Mem(m.buf, m.fam, [j \in 1..n |-> m.offs[lpos[j] + 1]])
-  ELSE IF cls = "copy" THEN Mem(nb, nb, Iota(n))
-  ELSE Mem(nb, m.fam, Iota(n))
-\* what object o holds after a write of W(p) through object w at position p (cur = contents before);
-\* defined (known) when the buffers are equal or the families differ
-WriteKnown(mo, mw) == mo.buf = mw.buf \/ mo.fam # mw.fam
-WriteVal(w, p) == 0 - (100 * w + p)
-AfterWrite(mo, mw, w, curo) ==
-  IF mo.buf # mw.buf THEN curo
-  ELSE [j \in DOMAIN curo |->
-          IF \E p \in DOMAIN mw.offs : mw.offs[p] = mo.offs[j]
-          THEN WriteVal(w, CHOOSE p \in DOMAIN mw.offs : mw.offs[p] = mo.offs[j]) ELSE curo[j]]
-
-(* ======================= operations ======================================= *)
-\* op = [op, src, items, t, s, a, b]   (uniform record; unused fields are <<>> / "" / 0)
-Op(op, items, t, s, a, b) == [op |-> op, src |-> 0, items |-> items, t |-> t, s |-> s, a |-> a, b |-> b]
-Op0(op) == Op(op, <<>>, <<>>, "", 0, 0)
-\* mixed-unit lists: op.t = the unit pattern (element / row j is written in unit t[1 + j mod Len(t)]), op.s = the call
-\* form: unyt_array(list) | unyt_array(tuple) | arr[:] = list | np.add(arr, list), arr being zeros in the op.a-th unit of
-\* the family.  The list is coerced to its first unit; what comes out is labelled with the first unit (constructors) or
-\* with arr's unit (assignment, ufunc operand)
-MixUnit(op, row) == op.t[1 + (row % Len(op.t))]
-MixTarget(op) == IF op.s \in {"list", "tuple"} THEN op.t[1] ELSE Fam(op.t[1])[op.a]
-Units == {"km", "m", "cm"}
-Factor(u1, u2) == CASE u1 = u2 -> 1 [] u1 = "km" /\ u2 = "m" -> 1000 [] u1 = "km" /\ u2 = "cm" -> 100000
-                    [] u1 = "m" /\ u2 = "cm" -> 100 [] OTHER -> 0
-StripOps == {"d", "ndview", "ndarray_view", "asarray"}
-CopyStripOps == {"v", "value", "to_ndarray"}
-ConvertOps == {"in_units", "to"}
-BaseOps == {"in_base", "in_mks", "in_cgs"}
-BaseTarget(op) == IF op = "in_cgs" THEN "cm" ELSE "m"
-TransOps == {"T", "transpose", "np_transpose", "swapaxes"}
-ReshapeOps == {"reshape", "np_reshape"}
-SqueezeOps == {"squeeze", "np_squeeze", "squeeze_ax"}
-RedFns == {"sum", "max", "mean", "std", "np_ptp", "np_median", "np_sum", "np_max", "min"}
-EmptyRaises == {"max", "np_ptp", "np_max", "min"}
-UnaryFns == {"neg", "abs", "sqrt", "pos"}
-BinFns == {"add", "sub", "mul", "div"}
-ArrFns == {"take_i", "take_l", "m_take_i", "dot", "np_dot", "einsum", "concat", "stack", "norm", "np_sort", "np_where", "np_clip"}
-ReshapeTargetOk(o, t) == Size(t) = Size(o.sh)
-TransPerm(o, op) == CASE op.op \in {"T", "transpose", "np_transpose"} -> Reverse(Len(o.sh))
-                      [] op.op = "swapaxes" -> Swap(Len(o.sh), op.a, op.b)
-
-\* is the call meaningful for this object (guards of the generator; the replay never sees anything else)
-Enabled(o, m, op) ==
-  CASE op.op \in {"ctor_a", "ctor_am", "ctor_q", "mul_unit", "rmul_unit", "ctor_list"} -> o.k = "nd" /\ o.u = ""
-    [] op.op = "mixlist" -> o.k = "nd" /\ Len(o.sh) \in {1, 2} /\ o.sh[1] >= 1 /\ Size(o.sh) >= 1
-                            /\ op.s \in {"list", "tuple", "setitem", "ufunc"} /\ (op.s = "ufunc" => op.t[1] \in {"km", "m", "cm"})
-    [] op.op = "idx" -> IsUnyt(o) /\ IdxValid(o.sh, op.items)
-    [] op.op = "iter" -> IsUnyt(o) /\ (IF Len(o.sh) = 0 THEN TRUE ELSE op.a < o.sh[1])
-    [] op.op \in ReshapeOps -> IsUnyt(o) /\ ReshapeTargetOk(o, op.t) /\ Injective(m.offs) /\ (AP(m.offs) \/ Len(op.t) = 1)
-    [] op.op \in {"T", "transpose", "np_transpose"} -> IsUnyt(o)
-    [] op.op = "swapaxes" -> IsUnyt(o) /\ op.a < op.b /\ op.b <= Len(o.sh)
-    [] op.op \in {"ravel", "flatten", "squeeze", "np_squeeze", "atleast_1d", "view", "broadcast_to", "repeat2"} -> IsUnyt(o)
-    [] op.op = "squeeze_ax" -> IsUnyt(o) /\ op.a <= Len(o.sh) /\ op.a >= 1 /\ o.sh[op.a] = 1
-    [] op.op = "expand_dims" -> IsUnyt(o) /\ op.a >= 1 /\ op.a <= Len(o.sh) + 1
-    [] op.op \in StripOps \cup CopyStripOps \cup {"to_value", "copy", "ctor_a_from"} -> IsUnyt(o)
-    [] op.op \in ConvertOps \cup {"to_value_u"} -> IsUnyt(o) /\ o.u \in Units /\ op.s \in Units /\ Factor(o.u, op.s) # 0
-    [] op.op \in BaseOps -> IsUnyt(o) /\ o.u \in Units /\ Factor(o.u, BaseTarget(op.op)) # 0
-    [] op.op = "red" -> IsUnyt(o) /\ op.s \in RedFns /\ op.a <= Len(o.sh)
-    [] op.op = "cumsum" -> IsUnyt(o) /\ op.a <= Len(o.sh)
-    [] op.op = "unary" -> IsUnyt(o) /\ op.s \in UnaryFns
-    [] op.op = "bin" -> IsUnyt(o) /\ op.s \in BinFns /\ (op.t[1] \in {"num", "rnum", "nd", "rnd", "nd2"} => op.s \in {"mul", "div"})
-                         /\ (op.t[1] \in {"rnum", "rnd", "rq"} => op.s \in {"mul", "add"})
-    [] op.op = "arrfn" -> IsUnyt(o) /\ op.s \in ArrFns
-                          /\ (op.s \in {"take_i", "take_l", "m_take_i"} => Size(o.sh) >= 1)
-                          /\ (op.s \in {"dot", "np_dot", "einsum"} => Len(o.sh) = 1)
-                          /\ (op.s \in {"concat", "np_sort"} => Len(o.sh) >= 1)
-                          /\ (op.s = "norm" => Len(o.sh) \in {1, 2} /\ Size(o.sh) >= 1)
-    [] OTHER -> FALSE
-
-(* ======================= Part 2: the implementation-shaped transition ===== *)
-\* class chosen by the wrap-up of __array_ufunc__ (array.py:2020-2033): shape () -> quantity; size 1 -> array;
-\* otherwise ret_class, cast to array if it is a quantity class
-UfuncK(sh) == IF sh = <<>> THEN "Q" ELSE "A"
-\* ndarray-native results keep the subclass (view casting); __getitem__ re-wraps 0-d results as quantities
-NativeK(o) == o.k
-\* handlers choosing by ndim (take, einsum ...): ndim 0 -> quantity else array; ndarray * Unit: data.shape == ()
-NdimK(sh) == IF sh = <<>> THEN "Q" ELSE "A"
-\* unyt_quantity.__new__ refuses size > 1 (also under bypass_validation)
-QRefuses(k, sh) == k = "Q" /\ Size(sh) > 1
-\* unyt_array.squeeze / reshape (_wrap_0d): a 0-d result is handed out as a quantity (a view, the parent's name and
-\* unit), anything else keeps the ndarray-native class
-Wrap0d(o, rsh) == IF rsh = <<>> THEN "Q" ELSE NativeK(o)
-
-\* shape NumPy reads back from nested lists: nothing can be nested below an empty list
-RECURSIVE ListShape(_)
-ListShape(sh) == IF sh = <<>> THEN <<>> ELSE IF Head(sh) = 0 THEN <<0>> ELSE <<Head(sh)>> \o ListShape(Tail(sh))
-R(k, sh, u, nm, cls, lpos, scale) == [exc |-> FALSE, o |-> Obj(k, sh, u, nm), cls |-> cls, lpos |-> lpos, scale |-> scale]
-RExc == [exc |-> TRUE, o |-> ExcObj, cls |-> "copy", lpos |-> <<>>, scale |-> 0]
-Same(o) == Iota(Size(o.sh))
-
-\* Res(o, m, op): result object, memory class (view | copy), element map, value scale
-Res(o, m, op) ==
-  LET n == Size(o.sh) IN
-  CASE op.op = "ctor_a" -> R("A", o.sh, "km", TRUE, "view", Same(o), 1)
-    [] op.op = "ctor_am" -> R("A", o.sh, "m", TRUE, "view", Same(o), 1)
-    [] op.op = "ctor_q" -> IF n > 1 THEN RExc ELSE R("Q", o.sh, "km", TRUE, "view", Same(o), 1)
-    [] op.op \in {"mul_unit", "rmul_unit"} -> R(NdimK(o.sh), o.sh, "km", FALSE, "copy", Same(o), 1)
-    [] op.op = "ctor_list" -> R("A", ListShape(o.sh), "km", TRUE, "copy", Same(o), 1)
-    [] op.op = "mixlist" -> R("A", o.sh, MixTarget(op), FALSE, "copy", Same(o), 0)   \* values: C16_Mixed
-    [] op.op = "idx" ->
-         LET rsh == IdxShape(o.sh, op.items) IN
-         R(IF rsh = <<>> THEN "Q" ELSE NativeK(o), rsh, o.u, o.nm,
-           IF Advanced(op.items) \/ ScalarCase(o.sh, op.items) THEN "copy" ELSE "view", IdxLPos(o.sh, op.items), 1)
-    [] op.op = "iter" ->
-         IF Len(o.sh) = 0 THEN RExc
-         ELSE LET it == <<It("int", op.a, "")>> rsh == IdxShape(o.sh, it) IN
-              R(IF rsh = <<>> THEN "Q" ELSE NativeK(o), rsh, o.u, o.nm, IF Len(o.sh) = 1 THEN "copy" ELSE "view", IdxLPos(o.sh, it), 1)
-    [] op.op \in ReshapeOps ->
-         \* unyt_quantity.reshape: () -> ndarray.reshape; anything else -> unyt_array(self).reshape (name not passed on)
-         LET cls == IF AP(m.offs) THEN "view" ELSE "copy" IN
-         IF o.k = "Q" /\ op.t # <<>> THEN R("A", op.t, o.u, FALSE, cls, Same(o), 1)
-         ELSE R(Wrap0d(o, op.t), op.t, o.u, o.nm, cls, Same(o), 1)
-    [] op.op \in TransOps -> R(NativeK(o), PermShape(o.sh, TransPerm(o, op)), o.u, o.nm, "view", PermLPos(o.sh, TransPerm(o, op)), 1)
-    [] op.op = "ravel" -> R(NativeK(o), <<n>>, o.u, o.nm, IF Consecutive(m.offs) THEN "view" ELSE "copy", Same(o), 1)
-    [] op.op = "flatten" -> R(NativeK(o), <<n>>, o.u, o.nm, "copy", Same(o), 1)
-    [] op.op \in {"squeeze", "np_squeeze"} -> R(Wrap0d(o, SqueezeShape(o.sh)), SqueezeShape(o.sh), o.u, o.nm, "view", Same(o), 1)
-    [] op.op = "squeeze_ax" -> R(Wrap0d(o, DropAxis(o.sh, op.a)), DropAxis(o.sh, op.a), o.u, o.nm, "view", Same(o), 1)
-    [] op.op = "expand_dims" ->   \* np.expand_dims -> a.reshape(...)
-         IF o.k = "Q" THEN R("A", InsertAxis(o.sh, op.a), o.u, FALSE, "view", Same(o), 1)
-         ELSE R("A", InsertAxis(o.sh, op.a), o.u, o.nm, "view", Same(o), 1)
-    [] op.op = "atleast_1d" ->    \* ndim 0 -> reshape(1); otherwise the object itself
-         IF o.sh = <<>> THEN R("A", <<1>>, o.u, IF o.k = "Q" THEN FALSE ELSE o.nm, "view", Same(o), 1)
-         ELSE R(NativeK(o), o.sh, o.u, o.nm, "view", Same(o), 1)
-    [] op.op = "view" -> R(NativeK(o), o.sh, o.u, o.nm, "view", Same(o), 1)
-    [] op.op = "broadcast_to" -> R(NativeK(o), <<2>> \o o.sh, o.u, o.nm, "view", BcastLPos(o.sh), 1)
-    [] op.op = "repeat2" -> R(NativeK(o), <<2 * n>>, o.u, o.nm, "copy", [p \in 1..(2 * n) |-> (p - 1) \div 2], 1)
-    [] op.op \in StripOps -> R("nd", o.sh, "", FALSE, "view", Same(o), 1)
-    [] op.op \in CopyStripOps -> R("nd", o.sh, "", FALSE, "copy", Same(o), 1)
-    [] op.op = "to_value" ->      \* quantity: float(v) (TypeError unless 0-d)
-         IF o.k = "Q" THEN (IF o.sh = <<>> THEN R("num", <<>>, "", FALSE, "copy", Same(o), 1) ELSE RExc)
-         ELSE R("nd", o.sh, "", FALSE, "copy", Same(o), 1)
-    [] op.op = "to_value_u" ->
-         IF QRefuses(o.k, o.sh) THEN RExc
-         ELSE IF o.k = "Q" THEN (IF o.sh = <<>> THEN R("num", <<>>, "", FALSE, "copy", Same(o), Factor(o.u, op.s)) ELSE RExc)
-         ELSE R("nd", o.sh, "", FALSE, "copy", Same(o), Factor(o.u, op.s))
-    [] op.op = "copy" -> IF QRefuses(o.k, o.sh) THEN RExc ELSE R(NativeK(o), o.sh, o.u, o.nm, "copy", Same(o), 1)
-    [] op.op = "ctor_a_from" -> R("A", o.sh, o.u, FALSE, "view", Same(o), 1)
-    [] op.op \in ConvertOps -> IF QRefuses(o.k, o.sh) THEN RExc ELSE R(NativeK(o), o.sh, op.s, o.nm, "copy", Same(o), Factor(o.u, op.s))
-    [] op.op \in BaseOps ->       \* outside the electromagnetic branch: self.in_units(base equivalent) - class and name as in_units
-         IF QRefuses(o.k, o.sh) THEN RExc
-         ELSE R(NativeK(o), o.sh, BaseTarget(op.op), o.nm, "copy", Same(o), Factor(o.u, BaseTarget(op.op)))
-    [] op.op = "red" ->
-         LET rsh == RedShape(o.sh, op.a, op.b = 1) IN
-         IF op.s \in EmptyRaises /\ RedCount(o.sh, op.a) = 0 THEN RExc   \* no identity: ValueError
-         \* np.median is not wrapped: NumPy computes the un-kept result (0-d -> quantity) and re-inserts the axes by indexing
-         ELSE R(IF op.s = "np_median" THEN UfuncK(RedShape(o.sh, op.a, FALSE)) ELSE UfuncK(rsh), rsh, o.u, FALSE, "copy", <<>>, 0)
-    [] op.op = "cumsum" -> R(UfuncK(IF op.a = 0 THEN <<n>> ELSE o.sh), IF op.a = 0 THEN <<n>> ELSE o.sh, o.u, FALSE, "copy", <<>>, 0)
-    [] op.op = "unary" -> R(UfuncK(o.sh), o.sh, IF op.s = "sqrt" THEN "sqrt(" \o o.u \o ")" ELSE o.u, FALSE, "copy", <<>>, 0)
-    [] op.op = "bin" ->
-         LET rsh == PartnerShape(o.sh, op.t[1])
-             ru == CASE op.s \in {"add", "sub"} -> o.u
-                     [] op.s = "mul" -> IF op.t[1] \in {"self", "q", "rq", "a1"} THEN o.u \o "**2" ELSE o.u
-                     [] op.s = "div" -> IF op.t[1] \in {"self", "q", "rq", "a1"} THEN "dimensionless" ELSE o.u
-         IN R(UfuncK(rsh), rsh, ru, FALSE, "copy", <<>>, 0)
-    [] op.op = "arrfn" ->
-         CASE op.s \in {"take_i", "m_take_i"} -> R(NdimK(<<>>), <<>>, o.u, FALSE, "copy", <<>>, 0)
-           [] op.s = "take_l" -> R(NdimK(<<2>>), <<2>>, o.u, FALSE, "copy", <<>>, 0)
-           [] op.s \in {"dot", "np_dot"} -> R(NdimK(<<>>), <<>>, o.u \o "**2", FALSE, "copy", <<>>, 0)
-           [] op.s = "einsum" -> R(NdimK(<<>>), <<>>, o.u \o "**2", FALSE, "copy", <<>>, 0)   \* product of the operands' units (fix 7030a26)
-           [] op.s = "concat" -> R("A", <<2 * o.sh[1]>> \o Tail(o.sh), o.u, FALSE, "copy", <<>>, 0)
-           [] op.s = "stack" -> R("A", <<2>> \o o.sh, o.u, FALSE, "copy", <<>>, 0)
-           [] op.s = "norm" -> R("Q", <<>>, o.u, FALSE, "copy", <<>>, 0)
-           [] op.s = "np_sort" -> R(NativeK(o), o.sh, o.u, o.nm, "copy", <<>>, 0)
-           [] op.s = "np_where" -> R(UfuncK(o.sh), o.sh, o.u, FALSE, "copy", <<>>, 0)
-           [] op.s = "np_clip" -> R(UfuncK(o.sh), o.sh, o.u, FALSE, "copy", <<>>, 0)
-
-(* ======================= Part 3: the property side ======================== *)
-\* "Any unyt result of shape () is a unyt_quantity and any result with more than one element is a unyt_array,
-\*  never a multi-element quantity."  Silent on size-1 non-scalars and on empty results.
-ClassOk(r) == IsUnyt(r) => ((r.sh = <<>> => r.k = "Q") /\ (Size(r.sh) > 1 => r.k = "A"))
-\* a call is judged when its input obeys the rule itself (a 0-d array / multi-element quantity handed in is passed
-\* through by class-preserving calls - the defect is the call that produced it), and when the caller did not name the
-\* class himself (explicit constructors)
-ExplicitClass == {"ctor_a", "ctor_am", "ctor_q", "ctor_list", "ctor_a_from"}
-C16_Class(src, op, r) == (ClassOk(src) /\ op.op \notin ExplicitClass) => ClassOk(r)
-\* "indexing or iterating an array yields quantities/arrays with the parent's units and name"
-C16_Index(src, op, r) == (op.op \in {"idx", "iter"} /\ r.k # "exc") => (IsUnyt(r) /\ r.u = src.u /\ r.nm = src.nm)
-\* view set / copy set / silent.  cc = the parent is C-contiguous (NumPy itself copies when it cannot reshape in place)
-PMem(src, cc, op, rsh) ==
-  CASE op.op = "idx" -> IF ~Advanced(op.items) /\ Len(rsh) >= 1 THEN "view" ELSE "silent"
-    [] op.op \in ReshapeOps -> IF cc THEN "view" ELSE "silent"
-    [] op.op \in TransOps -> "view"
-    [] op.op \in {"d", "ndview", "ndarray_view"} -> "view"
-    [] op.op \in {"ctor_a", "ctor_am"} -> "view"
-    [] op.op \in CopyStripOps \cup {"to_value", "to_value_u", "copy"} \cup ConvertOps \cup BaseOps -> "copy"
-    [] op.op \in {"mul_unit", "rmul_unit"} -> "copy"
-    [] OTHER -> "silent"
-\* element map the property side attaches to a view-set call (NumPy's definition of the call)
-PLPos(src, op) ==
-  CASE op.op = "idx" -> IdxLPos(src.sh, op.items)
-    [] op.op \in TransOps -> PermLPos(src.sh, TransPerm(src, op))
-    [] OTHER -> Same(src)
-\* "a list of quantities in mixed commensurable units is coerced to the first element's unit with values converted":
-\* element j (row j of a 2-d root) was written in unit t[1 + (j mod 2)]; obs values come as <<num, den>> pairs
-MixUnit(op, row) == op.t[1 + (row % 2)]
-MixFactorNum(u1, u2) == IF Factor(u1, u2) # 0 THEN Factor(u1, u2) ELSE 1
-MixFactorDen(u1, u2) == IF Factor(u1, u2) # 0 THEN 1 ELSE Factor(u2, u1)
-C16_Mixed(src, srcvals, op, r, rvals) ==
-  /\ r.k = "A" /\ r.u = op.t[1] /\ r.sh = src.sh /\ Len(rvals) = Len(srcvals)
-  /\ \A j \in DOMAIN srcvals :
-       LET row == IF Len(src.sh) = 1 THEN j - 1 ELSE (j - 1) \div src.sh[2]
-           uj == MixUnit(op, row) IN
-       rvals[j][1] * MixFactorDen(uj, op.t[1]) = srcvals[j] * MixFactorNum(uj, op.t[1]) * rvals[j][2]
 =============================================================================
